@@ -3,8 +3,9 @@ Model of the address <-> source lookups of BugStalker
 (src/debugger/debugee/dwarf/unit/mod.rs, dwarf/mod.rs, dwarf/unit/die_ref.rs).
 
 * `LineRow`s of a unit are kept in the order the implementation stores them: all rows of the
-  unit's line program, `sort_unstable_by_key(address)`; `end_sequence` rows are *kept*.
-  The sort is unstable, so the model takes the stored order as input (hook `verif_dump_units`).
+  unit's line program, `sort_by_key((address, !end_sequence))` (stable; repaired by a `fix:` commit: it was
+  `sort_unstable_by_key(address)`); `end_sequence` rows are *kept* and come FIRST among rows of equal address.
+  The lookups take the stored order as input (hook `verif_dump_units`); `storeRows` is the parser's sort.
 * `binarySearch` is `core::slice::binary_search_by` of the pinned toolchain (1.89): the size-halving
   loop without early exit; among equal keys it returns the LAST one.
 * Everything is total.  The one Rust panic that WAS reachable (`p -= 1` on `usize` 0 in
@@ -58,6 +59,14 @@ structure CUnit where
   fnRanges : Array FnRange := #[]   -- sorted (unstably) by `begin`
   fns      : Array FnInfo  := #[]
 deriving Repr, Inhabited
+
+/-! ## the parser's sort of the line rows -/
+
+/-- the order of `lines.sort_by_key(|x| (x.address, !x.end_sequence()))`: by address, end_sequence rows first -/
+def rowLe (a b : Row) : Bool := decide (a.addr < b.addr) || (a.addr == b.addr && (a.es || !b.es))
+
+/-- the rows of a unit as stored: the rows of its line program, in program order, sorted stably by `rowLe` -/
+def storeRows (prog : List Row) : Array Row := (prog.mergeSort rowLe).toArray
 
 /-! ## `core::slice::binary_search_by` -/
 
@@ -117,18 +126,19 @@ inductive Res (α : Type) where
   | panic
 deriving Repr, DecidableEq
 
-/-- the `while let Some(next_place) = find_place_by_idx(p) && next_place.address == pc { place = ..; p -= 1 }`
-loop of `find_exact_place_by_pc`; `p` is the index to look at next. `oc` = overflow checks on. -/
+/-- the `while p > 0 && let Some(next_place) = find_place_by_idx(p - 1) && next_place.address == pc &&
+!next_place.end_sequence { place = ..; p -= 1 }` loop of `find_exact_place_by_pc`; the first argument is the index
+`p - 1` to look at next. `oc` = overflow checks on (no arithmetic can overflow any more; kept for the protocol). -/
 def exactBack (rows : Array Row) (pc : Nat) (oc : Bool) : Nat → Nat × Row → Res (Option (Nat × Row))
   | 0, best =>
     match rows[0]? with
     | some r =>
-      if r.addr = pc then .ok (some (0, r))   -- index 0 reached: the loop stops (`while p > 0 && ..`, repaired by the `fix:` commit)
+      if r.addr = pc && !r.es then .ok (some (0, r))   -- index 0 reached: the loop stops (`while p > 0 && ..`)
       else .ok (some best)
     | none => .ok (some best)
   | p' + 1, best =>
     match rows[p' + 1]? with
-    | some r => if r.addr = pc then exactBack rows pc oc p' (p' + 1, r) else .ok (some best)
+    | some r => if r.addr = pc && !r.es then exactBack rows pc oc p' (p' + 1, r) else .ok (some best)
     | none => .ok (some best)
 
 /-- `BsUnit::find_exact_place_by_pc` -/
@@ -235,28 +245,43 @@ def lowPc : List Rng → Option Nat
     | none => some r.lo
     | some m => some (if r.lo ≤ m then r.lo else m)
 
-/-- `while !place.prolog_end { match place.next() { None => break, Some(n) => place = n } }`:
-walk forward from row `i` to the first `prologue_end` row, or to the last row of the unit.
-`fuel` = number of rows left to look at. -/
-def peWalk (rows : Array Row) : Nat → Nat → Row → Nat × Row
-  | 0, i, r => (i, r)
-  | fuel + 1, i, r =>
-    if r.pe then (i, r)
-    else match rows[i + 1]? with
-      | none => (i, r)
-      | some r' => peWalk rows fuel (i + 1) r'
+/-- `end_instruction`: `ranges.iter().max_by(begin)` (last maximum) `.end` -/
+def endPc : List Rng → Option Nat
+  | [] => none
+  | r :: rest => some (rest.foldl (fun (m : Rng) x => if m.lo ≤ x.lo then x else m) r).hi
+
+/-- `GlobalAddress::in_ranges` -/
+def inFnRanges (ranges : List Rng) (pc : Nat) : Bool := ranges.any (·.contains pc)
+
+/-- the walk of `prolog_end_place` (repaired by a `fix:` commit; it used to walk to the first prologue_end row of the
+UNIT): `while place.address < end { if place.prolog_end && !place.end_sequence && place.address.in_ranges(ranges)
+{ return place }; match place.next() { None => break, Some(n) => place = n } }` from row `i`.
+`none` = the loop ended without a place (the caller falls back to the start place). `fuel` = rows left. -/
+def peWalkIn (rows : Array Row) (ranges : List Rng) (endA : Nat) : Nat → Nat → Option (Nat × Row)
+  | 0, _ => none
+  | fuel + 1, i =>
+    match rows[i]? with
+    | none => none
+    | some r =>
+      if r.addr < endA then
+        if r.pe && !r.es && inFnRanges ranges r.addr then some (i, r)
+        else peWalkIn rows ranges endA fuel (i + 1)
+      else none
 
 /-- `prolog_end_place` of the function whose DIE ranges are `ranges`: `none` = error (no ranges / no place) -/
 def prologEndPlace (units : Array CUnit) (ranges : List Rng) : Option (Nat × Nat × Row) :=
-  match lowPc ranges with
-  | none => none
-  | some lo =>
+  match lowPc ranges, endPc ranges with
+  | some lo, some endA =>
     match findPlaceFromPc units lo with
     | none => none
     | some (u, i, r) =>
       match units[u]? with
       | none => none
-      | some un => let (j, r') := peWalk un.rows (un.rows.size - i) i r; some (u, j, r')
+      | some un =>
+        match peWalkIn un.rows ranges endA (un.rows.size - i) i with
+        | some (j, r') => some (u, j, r')
+        | none => some (u, i, r)
+  | _, _ => none
 
 /-! ## line breakpoints: `find_closest_place` -/
 
@@ -286,6 +311,11 @@ def peAhead (rows : Array Row) (fl : Array Nat) (line : Nat) : Nat → Nat → (
         else if lr.pe then (ai, ahead)
         else peAhead rows fl line fuel (ahead + 1) cur
 
+/-- the look-ahead as `find_closest_place` runs it from the starting row `r` (repaired by a `fix:` commit: it used to look
+ahead even when `r` itself is a prologue_end row, and then jumped over it): nothing to look for when `r.pe`. -/
+def peAheadFrom (rows : Array Row) (fl : Array Nat) (r : Row) (fuel ahead : Nat) (cur : Nat × Nat) : Nat × Nat :=
+  if r.pe then cur else peAhead rows fl r.line fuel ahead cur
+
 /-- the `while i < file_lines.len()` loop of one (unit, file); `acc` = `suitable_places_in_unit`
 as (row index, row); `fuel` bounds the number of iterations. -/
 def suitableLoop (rows : Array Row) (fl : Array Nat) (needle : Nat) :
@@ -302,7 +332,7 @@ def suitableLoop (rows : Array Row) (fl : Array Nat) (needle : Nat) :
         | [] =>
           if r.line != needle || !r.stmt then suitableLoop rows fl needle fuel (i + 1) acc
           else
-            let (li, i') := peAhead rows fl r.line (fl.size - i) (i + 1) (lineIdx, i)
+            let (li, i') := peAheadFrom rows fl r (fl.size - i) (i + 1) (lineIdx, i)
             match rows[li]? with
             | some r' => suitableLoop rows fl needle fuel (i' + 1) [(li, r')]
             | none => suitableLoop rows fl needle fuel (i' + 1) acc
@@ -372,7 +402,8 @@ def findClosestPlace (units : Array CUnit) (path : Nat) (line : Nat) : List (Nat
   if !res.isEmpty then res
   else (closestPass units (line + 1) files seen res).2
 
-/-- `find_places_in_line_range(path, a, b)`: all is_stmt rows of the lines, first per (address, line, column) -/
+/-- `find_places_in_line_range(path, a, b)`: all is_stmt rows of the lines that do not end a sequence (repaired by a
+`fix:` commit: end_sequence rows were listed), first per (address, line, column) -/
 def findPlacesInLineRange (units : Array CUnit) (path : Nat) (a b : Nat) : List (Nat × Nat × Row) :=
   let lo := if a ≤ b then a else b
   let hi := if a ≤ b then b else a
@@ -384,7 +415,7 @@ def findPlacesInLineRange (units : Array CUnit) (path : Nat) (a b : Nat) : List 
     | none => []
     | some un => fl.toList.filterMap fun i =>
         match un.rows[i]? with
-        | some r => if r.stmt && decide (lo ≤ r.line) && decide (r.line ≤ hi) then some (u, i, r) else none
+        | some r => if r.stmt && !r.es && decide (lo ≤ r.line) && decide (r.line ≤ hi) then some (u, i, r) else none
         | none => none
   (cands.foldl step ([], [])).2
 
